@@ -25,8 +25,8 @@ func init() {
 
 var ab = []string{"a", "b"}
 
-var errKindCycle = []int{scen.ESentinel, scen.EWrapped, scen.ECustom, scen.EUncomparable, scen.ENestedRun, scen.EJoined, scen.ETypedNil, scen.ETemporary, scen.EWrapped, scen.ECtxLike, scen.ENilSliceErr, scen.EIOEOF, scen.ENotTemporary, scen.ESameValue, scen.EEmptyBatchErr}
-var errKindName = map[int]string{scen.ESentinel: "sentinel", scen.EWrapped: "wrapped", scen.ECustom: "custom", scen.EUncomparable: "uncomparable-struct", scen.EJoined: "joined", scen.ETemporary: "temporary", scen.ECtxLike: "wraps-a-context-error", scen.ENestedRun: "wraps-a-sub-run-error", scen.ETypedNil: "typed-nil-pointer", scen.ENilSliceErr: "nil-slice-error", scen.EIOEOF: "io.EOF", scen.ENotTemporary: "not-temporary", scen.ESameValue: "same-value", scen.EChained: "chained", scen.EEmptyBatchErr: "empty-batch-error"}
+var errKindCycle = []int{scen.ESentinel, scen.EWrapped, scen.ECustom, scen.EUncomparable, scen.ENestedRun, scen.EJoined, scen.ETypedNil, scen.ETemporary, scen.EWrapped, scen.ECtxLike, scen.ENilSliceErr, scen.EIOEOF, scen.ENotTemporary, scen.ESameValue, scen.EEmptyBatchErr, scen.EWrapping}
+var errKindName = map[int]string{scen.ESentinel: "sentinel", scen.EWrapped: "wrapped", scen.ECustom: "custom", scen.EUncomparable: "uncomparable-struct", scen.EJoined: "joined", scen.ETemporary: "temporary", scen.ECtxLike: "wraps-a-context-error", scen.ENestedRun: "wraps-a-sub-run-error", scen.ETypedNil: "typed-nil-pointer", scen.ENilSliceErr: "nil-slice-error", scen.EIOEOF: "io.EOF", scen.ENotTemporary: "not-temporary", scen.ESameValue: "same-value", scen.EChained: "chained", scen.EEmptyBatchErr: "empty-batch-error", scen.EWrapping: "typed-error-with-a-cause"}
 
 // tableScenario builds the scenario of one point of the exhaustive space:
 // nn nodes, 2 actions, target of every (node, action) ∈ {unconnected, nil, each node}, per-node scripts.
